@@ -39,6 +39,17 @@ def joinCommaSp : List Bytes → Bytes
   | [a] => a
   | a :: rest => a ++ strBytes ", " ++ joinCommaSp rest
 
+/-- http.CanonicalHeaderKey: if every byte is a token octet, upper-case the first letter and every
+    letter after a '-', lower-case the rest; otherwise the key is returned unchanged -/
+def canonAux : Bool → Bytes → Bytes
+  | _, [] => []
+  | up, b :: r =>
+    let x := b.toNat
+    let c : UInt8 := if up && 97 ≤ x && x ≤ 122 then b - 32 else if !up && 65 ≤ x && x ≤ 90 then b + 32 else b
+    c :: canonAux (b == 45) r
+
+def canonicalKey (k : Bytes) : Bytes := if k.all isTokenOctet then canonAux true k else k
+
 /-- the protocol-owned canonical keys a caller header map may not contain -/
 def forbidden (d : DCfg) (k : Bytes) : Bool :=
   k == strBytes "Upgrade" || k == strBytes "Connection" || k == strBytes "Sec-Websocket-Key" ||
@@ -53,14 +64,14 @@ def buildRequest (d : DCfg) (u : Url) (key : Bytes) (caller : Hdr) : Except DErr
     let h0 : Hdr := [(strBytes "Upgrade", [strBytes "websocket"]), (strBytes "Connection", [strBytes "Upgrade"]),
                      (strBytes "Sec-WebSocket-Key", [key]), (strBytes "Sec-WebSocket-Version", [strBytes "13"])]
     let h1 := if d.subprotocols.isEmpty then h0 else h0.set (strBytes "Sec-WebSocket-Protocol") [joinCommaSp d.subprotocols]
-    if caller.any (fun p => p.1 != strBytes "Host" && forbidden d p.1) then .error .duplicateHeader
+    if caller.any (fun p => canonicalKey p.1 != strBytes "Host" && forbidden d (canonicalKey p.1)) then .error .duplicateHeader
     else
-      let host := match caller.find? (fun p => p.1 == strBytes "Host") with
+      let host := match caller.find? (fun p => canonicalKey p.1 == strBytes "Host" && !p.2.isEmpty) with
         | some (_, v :: _) => v
         | _ => u.host
       let h2 := caller.foldl (fun h p =>
-        if p.1 == strBytes "Host" then h
-        else if p.1 == strBytes "Sec-Websocket-Protocol" then h.set (strBytes "Sec-WebSocket-Protocol") p.2
+        if canonicalKey p.1 == strBytes "Host" then h
+        else if canonicalKey p.1 == strBytes "Sec-Websocket-Protocol" then h.set (strBytes "Sec-WebSocket-Protocol") p.2
         else h.set p.1 p.2) h1
       let h3 := if d.enableCompression then
           h2.set (strBytes "Sec-WebSocket-Extensions") [strBytes "permessage-deflate; server_no_context_takeover; client_no_context_takeover"]
